@@ -253,23 +253,14 @@ func (p *Payload) Payload() any           { return p.Body }
 func (p *Payload) GetChangeView() dbft.ChangeView {
 	return p.Body.(*ChangeView)
 }
-func (p *Payload) GetPrepareRequest() dbft.PrepareRequest[H] {
-	r, ok := p.Body.(*PrepareRequest)
-	if !ok {
-		return nil
-	}
-	return r
-}
-func (p *Payload) GetPrepareResponse() dbft.PrepareResponse[H] {
-	r, ok := p.Body.(*PrepareResponse)
-	if !ok {
-		return nil
-	}
-	return r
-}
-func (p *Payload) GetPreCommit() dbft.PreCommit             { return p.Body.(*PreCommit) }
-func (p *Payload) GetCommit() dbft.Commit                   { return p.Body.(*Commit) }
-func (p *Payload) GetRecoveryRequest() dbft.RecoveryRequest { return p.Body.(*RecoveryRequest) }
+
+// The typed getters are strict like the reference implementation's: asking a payload for a
+// body of another type is a caller's bug and panics.
+func (p *Payload) GetPrepareRequest() dbft.PrepareRequest[H]   { return p.Body.(*PrepareRequest) }
+func (p *Payload) GetPrepareResponse() dbft.PrepareResponse[H] { return p.Body.(*PrepareResponse) }
+func (p *Payload) GetPreCommit() dbft.PreCommit                { return p.Body.(*PreCommit) }
+func (p *Payload) GetCommit() dbft.Commit                      { return p.Body.(*Commit) }
+func (p *Payload) GetRecoveryRequest() dbft.RecoveryRequest    { return p.Body.(*RecoveryRequest) }
 func (p *Payload) GetRecoveryMessage() dbft.RecoveryMessage[H] {
 	return p.Body.(*RecoveryMessage)
 }
